@@ -113,6 +113,8 @@ def run_cli(smt2, backend, timeout_s):
 
 def discharge(rec, plan=None, seed=0, budget_scale=1.0):
     """rec: dict with 'smt2' = {'full': text, 'coi': text or None, 'use': text or None}.  Returns result dict."""
+    if rec.get("kind") in ("canary", "cover"):
+        plan = [("full", "z3", 3), ("full", "nra", 6)]   # reachability probes, not proof obligations: short budget
     plan = plan or rec.get("plan") or DEFAULT_PLAN
     t0 = time.time()
     attempts = []
@@ -124,6 +126,8 @@ def discharge(rec, plan=None, seed=0, budget_scale=1.0):
     if smt.get("clear"):
         order.append(("clear", "z3", 5))
         order.append(("clear", "nra", 10))
+    if smt.get("near"):
+        order.append(("near", "z3", 2))
     if smt.get("use"):
         order.append(("use", "z3", 5))
         order.append(("use", "nra", 20))
@@ -197,6 +201,13 @@ def to_smt2(hyps, goal):
         s.add(h)
     s.add(z3.Not(goal))
     return s.to_smt2()
+
+
+def near_hyps(hyps, goal):
+    """hypotheses that share a variable with the goal directly (no transitive closure); sound: fewer hypotheses"""
+    cache = {}
+    gv = set(_vars_of(goal, cache))
+    return [h for h in hyps if (_vars_of(h, cache) & gv)]
 
 
 def cone_of_influence(hyps, goal):
